@@ -429,6 +429,10 @@ func genConv12(g *Gen, w *bufio.Writer) {
 			c[g.Intn(len(c))] = bad[g.Intn(len(bad))]
 			fmt.Fprintf(w, "conv guti2n %s\n", hexs(c))
 			fmt.Fprintf(w, "conv guti2n %s\n", hexs(g.mutate(t)))
+			// a hex letter (valid further back in the text, and the TBCD filler) in one of the MCC / MNC digit positions
+			d := append([]byte{}, t...)
+			d[g.Intn(5)] = []byte{'f', 'F', 'a', 'A', 'e'}[g.Intn(5)]
+			fmt.Fprintf(w, "conv guti2n %s\n", hexs(d))
 		}
 		wv := g.validGutiWire()
 		if i%5 == 0 {
